@@ -15,7 +15,7 @@ A program is a list of nodes; a node is a JSON list:
 
 from __future__ import annotations
 
-BODY_KINDS = {"for": [1], "forv": [2], "while": [1, 2], "if": [1, 2], "lam": [2], "map": [1], "filter": [1],
+BODY_KINDS = {"for": [1], "forv": [2], "while": [1, 2], "if": [1, 2, 3, 4, 5, 6, 7, 8], "lam": [2], "map": [1], "filter": [1],
               "sort": [1], "fdef": [3], "mod": [2], "exec": [1]}
 
 
@@ -34,9 +34,8 @@ def render(n):
     if k == "while":
         return "{ " + render_body(n[1]) + " | " + render_body(n[2]) + " }"
     if k == "if":
-        if len(n) > 2 and n[2] is not None:
-            return "[ " + render_body(n[1]) + " | " + render_body(n[2]) + " ]"
-        return "[ " + render_body(n[1]) + " ]"
+        branches = [b for b in n[1:] if b is not None]
+        return "[ " + " | ".join(render_body(b) for b in branches) + " ]"
     if k == "lam":
         head = "λ" if n[1] is None else f"λ{n[1]}|"
         return head + " " + render_body(n[2]) + " ;" + (" " + n[3] if n[3] else "")
@@ -112,6 +111,8 @@ def shrink_nodes(nodes):
                 yield nodes[:i] + [["lam", None, n[2], n[3]]] + nodes[i + 1:]
             if k == "if" and len(n) > 2 and n[2] is not None:
                 yield nodes[:i] + [["if", n[1]]] + nodes[i + 1:]
+                if len(n) > 3:
+                    yield nodes[:i] + [n[:-1]] + nodes[i + 1:]
         elif k == "list":
             for j in range(len(n[1])):
                 yield nodes[:i] + [["list", n[1][:j] + n[1][j + 1:]]] + nodes[i + 1:]
@@ -132,7 +133,10 @@ DYADS = ["+", "-", "*", "=", "<", ">", "∧", "∨", "\"", "J", "$", "p", "Z", "
 EFFECTS = ["£", "→a", "→b", "⅛", "_"]
 PRINTS = [",", "₴", "…", "¨,"]
 LAZY_MAKERS = ["3ɾ", "2ʀ", "4ɾ", "⟨1|2|3⟩ ƛ › ;", "3ɾ ƛ d ;", "3ɾ ' ₂ ;", "3ɾ : J", "3ɾ Ṙ", "2ɾ ¦", "3ɾ ›",
-               "λ › ;", "⟨ λ › ; | 2 ⟩", "λ2| + ;", "⟨ 3ɾ | 2ʀ ⟩", "3ɾ ƛ ɾ ;"]
+               "λ › ;", "⟨ λ › ; | 2 ⟩", "λ2| + ;", "⟨ 3ɾ | 2ʀ ⟩", "3ɾ ƛ ɾ ;",
+               # lazily evaluated higher-order results: the function runs when (and where) the list is forced
+               "3ɾ ɖ+", "4ɾ ɖ*", "⟨1|2|3⟩ ɖ-", "3ɾ ⁽› Z", "3ɾ ⁽₂ F", "3ɾ λ › ; M", "3ɾ ⁽› ẇ", "3ɾ ⁽d Ẇ", "⟨2|1|3⟩ ⁽N ṡ",
+               "3ɾ λ2| + ; ɖ" if False else "3ɾ ɖ‹", "⟨1|1⟩ ⁽+ Ḟ 4 Ẏ", "3ɾ ⁽› ÞZ" if False else "3ɾ v›"]
 # terminating recursion: the lambda calls itself (x) until its argument reaches 0
 RECURSIONS = ["3 λ : [ ‹ x ] ; †", "2 λ : [ ‹ x | 7 ] ; †", "⟨2|1⟩ ƛ : [ ‹ x ] ;", "2 λ : [ ‹ x X ] 5 ; †", "3 λ : 0 > [ ‹ v x ] ; †",
               "2 λ : [ ‹ ⁽ x † ] ; †", "3 λ : [ ‹ x , ] ; †"]
@@ -192,7 +196,15 @@ class Gen:
                 cond = ["t", r.choice(["n", "1", "0", "n 2 <", "n ₂", "!"])]
                 pos = r.randint(0, len(out))
                 branch = [ex] if r.random() < 0.6 else [self.simple(), ex]
-                node = ["if", branch] if r.random() < 0.7 else ["if", [self.simple()], branch]
+                z = r.random()
+                if z < 0.5:
+                    node = ["if", branch]
+                elif z < 0.7:
+                    node = ["if", [self.simple()], branch]
+                elif z < 0.85:
+                    node = ["if", [self.simple()], [["t", r.choice(["n 2 =", "1", "n ₂"])]], branch]  # exit in an else-if body
+                else:
+                    node = ["if", [self.simple()], [["t", "0"]], [self.simple()], [["t", "1"]], branch, [self.simple()]]
                 out[pos:pos] = [cond, node]
         return out
 
@@ -216,10 +228,20 @@ class Gen:
             return ["mod_seq", [["t", r.choice(["1", "2", "3"]) + f" →{var}"], ["while", [["t", f"←{var}"]], body]]]
         if k == "if":
             cond = ["t", r.choice(["1", "0", "n", "!", "2 n <"])]
-            if r.random() < 0.5:
+            y = r.random()
+            if y < 0.4:
                 return ["mod_seq", [cond, ["if", self.body(d, ctx_kind, n=r.randint(1, 2))]]]
-            return ["mod_seq", [cond, ["if", self.body(d, ctx_kind, n=r.randint(1, 2)),
-                                       self.body(d, ctx_kind, n=r.randint(1, 2))]]]
+            if y < 0.7:
+                return ["mod_seq", [cond, ["if", self.body(d, ctx_kind, n=r.randint(1, 2)),
+                                           self.body(d, ctx_kind, n=r.randint(1, 2))]]]
+            # else-if chain: [ then | cond2 | then2 (| cond3 | then3) (| else) ]
+            chain = ["if", self.body(d, ctx_kind, n=r.randint(1, 2))]
+            for _ in range(r.randint(1, 2)):
+                chain.append([["t", r.choice(["n 2 =", "0", "1", "n ₂", "!"])]])
+                chain.append(self.body(d, ctx_kind, n=r.randint(1, 2)))
+            if r.random() < 0.5:
+                chain.append(self.body(d, ctx_kind, n=1))
+            return ["mod_seq", [cond, chain]]
         if k == "lam":
             arity = r.choice([None, None, 0, 1, 2, 3])
             after = r.choice(["†", "†", "†", "M", "F", "", "Ḟ", "ṡ", "R", "Ż", "ẇ", "Ẇ", "ġ" if False else "†"])
